@@ -4,13 +4,21 @@ mod e2e;
 mod gen_prog;
 mod reftrace;
 mod dqe_ast;
+mod c06_gen;
+mod c06_dwarf;
+mod leg_c06;
 mod leg_c07;
 mod leg_c07_eval;
 mod leg_c10;
 mod dap;
+mod leg_c11;
 mod leg_c12;
+mod leg_c13;
 mod leg_c14;
 mod leg_c01;
+mod iso;
+mod lineinfo;
+mod leg_c03;
 mod leg_c04;
 mod leg_c05;
 mod leg_c15;
@@ -39,17 +47,24 @@ fn main() {
         "c16-e2e-worker" => leg_c16::run_worker(rest),
         "c16-e2e-cache" => leg_c16::run_cache(rest),
         "c05-e2e" => leg_c05::run(rest),
+        "c03-e2e" => leg_c03::run(rest),
+        "c11-e2e" => leg_c11::run(rest),
         "c04-e2e" => leg_c04::run(rest),
         "c04-witness" => leg_c04::run_witness(rest),
         "c18-e2e" => leg_c18::run(rest),
         "c19-e2e" => leg_c19::run(rest),
         "c10-e2e" => leg_c10::run(rest),
         "c10-acct" => leg_c10::run_acct(rest),
+        "c06-e2e" => leg_c06::run_e2e(rest),
+        "c06-unit" => leg_c06::run_unit(rest),
+        "c06-src" => leg_c06::run_src(rest),
         "c07-parse" => leg_c07::run_parse(rest),
         "c07-eval" => leg_c07_eval::run(rest),
         "c07-eval-probe" => leg_c07_eval::run_probe(rest),
         "c08-console" => leg_c07::run_console(rest),
         "c12-e2e" => leg_c12::run(rest),
+        "c13-hc" => leg_c13::run_hc(rest),
+        "c13-e2e" => leg_c13::run_e2e(rest),
         "c01-e2e" => leg_c01::run(rest),
         "dbg" => dbg_tmp::run(rest),
         other => {
